@@ -84,3 +84,28 @@
 (assert (= (win_iter s x (- m 1)) s))
 (assert (not (= (win_iter s x m) s)))
 (check-sat)
+
+;!lemma lemma_cnt_zero_all direct
+; follows from lemma_cnt_zero instantiated at the skolem index
+(declare-const a (Array Int Bool)) (declare-const n Int) (declare-const k Int)
+(assert (lemma_cnt_zero a n k))
+(assert (= (cnt a n) 0)) (assert (<= 0 k)) (assert (< k n)) (assert (select a k))
+(check-sat)
+
+;!lemma lemma_ack_clean base
+(declare-const s Win) (declare-const m Int)
+(assert (<= m 0))
+(assert (not (lemma_ack_clean s m)))
+(check-sat)
+
+;!lemma lemma_ack_clean step
+(declare-const s Win) (declare-const m Int)
+(assert (>= m 1))
+(assert (lemma_ack_clean s (- m 1)))
+(assert (not (lemma_ack_clean s m)))
+(check-sat)
+
+;!lemma lemma_ring_shift direct
+(declare-const s Win) (declare-const x Bool) (declare-const k Int)
+(assert (not (lemma_ring_shift s x k)))
+(check-sat)
